@@ -217,6 +217,7 @@ def run(ctx):
     base = tempfile.mkdtemp(prefix='verif-c20-')
     try:
         _run(ctx, quick, rng, base)
+        run_real(ctx, quick, rng)
     finally:
         shutil.rmtree(base, ignore_errors=True)
 
@@ -504,3 +505,94 @@ def _run(ctx, quick, rng, base):
                               % (got, leaked, mod, mod_leaked),
                               dict(input=descr, implementation=r, model=[rep, rep_full], correspondence='Solver.v <-> cnfgen/utils/solver.py'),
                               False, site=iface or 'sat_solve', cls='differs-from-model')
+
+
+
+def run_real(ctx, quick, rng):
+    """A REAL solver (picosat, when the machine has one): solve()/is_satisfiable() through the stdin/stdout convention and,
+    with sameas='march', through the file-in/stdout convention.  The property is checked directly (witness sorted and
+    satisfying, verdict equal to an enumeration or to the planted/known status), and the raw text picosat prints for the
+    same DIMACS input goes through the Coq parser `parse_stdout`, whose answer must be the implementation's."""
+    exe = shutil.which('picosat')
+    if exe is None:
+        ctx.note('real-solver stream skipped: no picosat on PATH')
+        return
+    lib.import_impl()
+    from cnfgen.formula.cnf import CNF
+    import cnfgen
+    forms = []
+    for _ in range(25 if quick else 250):
+        n, cl = random_formula(rng)
+        cl = [c for c in cl]
+        forms.append(('random', n, cl, None))
+    # formulas with a known status from the generators (unsatisfiable principles and satisfiable instances)
+    known = [('php 4 3', lambda: cnfgen.PigeonholePrinciple(4, 3), False), ('php 3 3', lambda: cnfgen.PigeonholePrinciple(3, 3), True),
+             ('op 4', lambda: cnfgen.OrderingPrinciple(4), False), ('parity 5', lambda: cnfgen.CountingPrinciple(5, 2), False),
+             ('parity 6', lambda: cnfgen.CountingPrinciple(6, 2), True), ('count 7 3', lambda: cnfgen.CountingPrinciple(7, 3), False),
+             ('ram 3 3 5', lambda: cnfgen.RamseyNumber(3, 3, 5), True), ('ram 3 3 6', lambda: cnfgen.RamseyNumber(3, 3, 6), False),
+             ('vdw 8 3 3', lambda: cnfgen.VanDerWaerden(8, 3, 3), True), ('vdw 9 3 3', lambda: cnfgen.VanDerWaerden(9, 3, 3), False),
+             ('php 40 40', lambda: cnfgen.PigeonholePrinciple(40, 40), True)]
+    for name, mk, status in known:
+        F = mk()
+        forms.append((name, F.number_of_variables(), [list(c) for c in F.clauses()], status))
+    reqs, recs = [], []
+    for name, n, cl, status in forms:
+        for method, kw in (('solve', {}), ('solve', {'cmd': 'picosat', 'sameas': 'march'}), ('is_satisfiable', {'cmd': exe, 'sameas': 'picosat'})):
+            F = CNF(cl)
+            F.update_variable_number(n)
+            try:
+                r = getattr(F, method)(**kw)
+                got = ('ok', r)
+            except Exception as e:       # noqa: BLE001
+                got = ('exc', type(e).__name__ + ': ' + str(e)[:200])
+            raw = subprocess.run([exe], input=F.to_dimacs().encode('ascii'), stdout=subprocess.PIPE).stdout.decode('ascii', 'replace')
+            reqs.append(cmd('parse_stdout', [True, True, True], raw))
+            recs.append((name, n, cl, status, method, kw, got, raw))
+    replies = ctx.model.batch(reqs)
+    for (name, n, cl, status, method, kw, got, raw), rep in zip(recs, replies):
+        descr = dict(formula=name, nvars=n, clauses=cl if len(cl) <= 60 else '%d clauses' % len(cl), method=method, kwargs=kw)
+        ctx.count('real-picosat', ('real', name, n, len(cl), json.dumps(cl[:8]), method, json.dumps(kw, sort_keys=True)), nontrivial=True,
+                  sample=descr)
+        ctx.tally('real.vlines', min(raw.count('\nv '), 9))
+        if status is None:
+            if n <= 10:
+                status = brute_model(n, cl) is not None
+            else:
+                status = PLANTED[(n, len(cl), tuple(cl[0]), tuple(cl[-1]))] is not None
+        what = None
+        if got[0] == 'exc':
+            what = 'an installed, supported solver answered but %s raised %s' % (method, got[1])
+        elif method == 'is_satisfiable':
+            if got[1] is not status:
+                what = 'is_satisfiable returned %r, the formula is %s' % (got[1], 'satisfiable' if status else 'unsatisfiable')
+        else:
+            ok, w = got[1]
+            if ok is not status:
+                what = 'solve returned verdict %r, the formula is %s' % (ok, 'satisfiable' if status else 'unsatisfiable')
+            elif not status and w is not None:
+                what = 'unsatisfiable formula but witness %r' % (w,)
+            elif status and n > 0:
+                if w is None or [abs(x) for x in w] != list(range(1, n + 1)):
+                    what = 'witness %r is not one literal per variable in order' % (w if w is None else w[:20],)
+                else:
+                    a = [None] + [x > 0 for x in w]
+                    if not lib.cnf_sat(a, cl):
+                        what = 'witness does not satisfy the formula'
+        if what:
+            ctx.violation('counterexample', 'C20 fails with the real solver picosat: ' + what, dict(input=descr, implementation=repr(got)[:500],
+                          solver_output=raw[:2000]), True, site='real-picosat/' + method, cls=what.split(' ')[0])
+            continue
+        if is_error(rep):
+            ctx.violation('correspondence', 'model error on real solver output', dict(input=descr, model=rep), False, site='model-error',
+                          cls='real-picosat')
+            continue
+        # the Coq parser on the text the real solver printed
+        if method == 'solve' and got[0] == 'ok' and isinstance(rep, list) and rep and rep[0] == 'ok':
+            mw = rep[2][1] if isinstance(rep[2], list) else None
+            mine = (bool(rep[1]), mw)
+            theirs = (got[1][0], got[1][1])
+            if mine != theirs and not (n == 0 and theirs[1] in (None, []) and mine[1] in (None, [])):
+                ctx.violation('correspondence', 'Solver.parse_stdout on the text picosat printed gives %r, the implementation %r; theorems '
+                              'C20_stdout_* no longer cover the code' % (mine, theirs), dict(input=descr, solver_output=raw[:2000],
+                              correspondence='Solver.v parse_stdout <-> cnfgen/utils/solver.py'), False, site='real-picosat/parse',
+                              cls='differs-from-model')
